@@ -748,6 +748,9 @@ func (r *Runner) residue(at int, tx *bbolt.Tx, before map[string]any, s *Step) {
 	root := project.Dump(tx)
 	for _, id := range gone {
 		real := r.Env.Tok.Real(id)
+		if r.Env.Tok.Shared(real) {
+			continue // the same string is also an id of the other store: an occurrence says nothing (the state comparison still applies)
+		}
 		// a value equal to the id is residue only where ids are stored: name/nick/grade values live in ent/*/name.. and in the unique indexes
 		occ := root.Occurrences(real, func(path []string) bool {
 			last := path[len(path)-1]
